@@ -194,5 +194,5 @@ def _worker(ctx, job):
 
 def run(ctx):
     quick = ctx.tier == "quick"
-    n = 220 if quick else 7000
+    n = 220 if quick else 25000
     ctx.parallel(_worker, [(v, n) for v in range(4, 15)])
